@@ -179,7 +179,7 @@ def in_leaves(tier):
             o[n] = v
             out.append([base, kind_of(v, base), o])
     for v in ALPHABET["Int"]:
-        for wrap in (0, 1, 2):
+        for wrap in ((0, 1, 2) if tier == "thorough" else (1,)):
             o = dict(FULL_IN)
             o["c"] = v if wrap == 0 else [v] if wrap == 1 else [[v]]
             out.append(["Int", kind_of(v, "Int") if wrap < 2 else "list", o])
@@ -222,10 +222,12 @@ def contexts(shape, tier, base):
     k = list_depth(shape)
     out = [["nest", j] for j in range(0, k + 2)]
     if k:
-        js = range(1, k + 1) if (tier == "thorough" or base != "In") else [k]
-        for j in js:
-            out.append(["nullsib", j])
-            out.append(["goodsib", j])
+        if tier == "thorough" or base != "In":
+            for j in range(1, k + 1):
+                out.append(["nullsib", j])
+                out.append(["goodsib", j])
+        else:
+            out.append(["nullsib", k])
     return out
 
 
